@@ -35,7 +35,7 @@ func init() {
 		c01AtomicTake(c)
 		c20Snapshot(c, "C01.8b")
 		sliceFifoShapes(c, "C01.8c") // the write buffer is a FIFO: Push appends at the tail
-		c01Kind(c)
+		c01Kind(c, "C01.9")
 		c01SharedFrameReadOnly(c)
 		c01SendWiring(c, "C01.13")
 		codecCallTable(c, "C01.15")
@@ -459,8 +459,7 @@ func kindSelection(c *core.Ctx, R string, u *core.Unit, cl *core.Call, pkgOfCons
 	c.Check(R, keyf("%s/%s-kind", u.Key, what), cl.Pos(), ok, "Text iff the encoded buffer is a *types.StringBuffer, Binary otherwise")
 }
 
-func c01Kind(c *core.Ctx) {
-	const R = "C01.9"
+func c01Kind(c *core.Ctx, R string) {
 	c.Rule(R, "kind preservation (sibling agreement): in websocket.write / webTransport.write and in the pre-encoded branch of both send loops the frame type is Text iff the buffer's dynamic type is *types.StringBuffer, Binary otherwise (TextMessage=1, BinaryMessage=2 in both libraries)")
 	n := 0
 	for _, key := range []string{"transports.(*websocket).write", "transports.(*webTransport).write"} {
